@@ -51,6 +51,9 @@ func (ex *Exec) oblName(kind string, ord, i int, cl *Clause) string {
 
 func (ex *Exec) envAt(st *State, pos token.Pos) *Env {
 	env := &Env{ex: ex, names: map[string]Val{}, cur: st, old: ex.old, pos: pos, pkg: ex.pkg.Types}
+	if ex.fc != nil {
+		env.pureCallbacks = ex.fc.PureCallbacks
+	}
 	for k, v := range st.extra {
 		env.names[k] = v
 	}
@@ -247,7 +250,7 @@ func (ex *Exec) frameChecks(st *State, env *Env) {
 		}
 		oldT, ok := ex.old.ghost[g]
 		if !ok {
-			oldT = "|g_" + g + "_0|"
+			oldT = ex.ghostGet(ex.old, ex.cs.Ghost[g]).T
 		}
 		cur := st.ghost[g]
 		if cur == oldT {
